@@ -118,8 +118,10 @@ func runC19b(c c19bCase) (v *ev.Violation, missed bool, nearExpiry bool) {
 				continue
 			}
 			a := &c19Arming{h: op.H, v: op.V, before: time.Now(), timeout: tr.CalcTimeout(primitives.View(op.V))}
-			if n := len(stops); n > 0 && stops[n-1].until.IsZero() {
-				stops[n-1].until = a.before
+			for _, st := range stops { // every stop before this call ends its "nothing may be handed out" window here
+				if st.until.IsZero() {
+					st.until = a.before
+				}
 			}
 			tr.RegisterOnElection(primitives.BlockHeight(op.H), primitives.View(op.V), cb)
 			a.after = time.Now()
